@@ -353,13 +353,14 @@ fn nested_case(rep: &mut Report, rng: &mut Rng) {
 /// pair of whole / almost-whole relative offsets (the store may fold neighbouring whole members into one internal range: the
 /// resolved codepoints of every member must still be exactly the addressed ones).
 fn complex_case(rep: &mut Report, rng: &mut Rng) {
-    let text = crate::gen::gen_text(rng, 6, 16);
+    let text = crate::gen::gen_text(rng, 8, 16);
     let chars: Vec<char> = text.chars().collect();
     let n = chars.len();
     let mut store = AnnotationStore::new(Config::default().with_debug(false)).with_id("c04");
     store.add_resource(TextResourceBuilder::new().with_id("r").with_text(text.clone())).expect("resource");
-    let cut = rng.range(2, n as i64 - 2) as usize;
-    let parents = [(0usize, cut), (cut, n)];
+    let cut = rng.range(2, n as i64 - 4) as usize;
+    let cut2 = rng.range(cut as i64 + 2, n as i64 - 1).max(cut as i64 + 1) as usize;
+    let parents = [(0usize, cut), (cut, cut2), (cut2, n)];
     for (i, (b, e)) in parents.iter().enumerate() {
         if store.annotate(AnnotationBuilder::new().with_id(format!("p{}", i)).with_target(SelectorBuilder::textselector("r", Offset::simple(*b, *e)))).is_err() {
             return;
@@ -384,7 +385,41 @@ fn complex_case(rep: &mut Report, rng: &mut Rng) {
     };
     let s0 = shapes(parents[0].1 - parents[0].0);
     let s1 = shapes(parents[1].1 - parents[1].0);
+    let s2 = shapes(parents[2].1 - parents[2].0);
     let mut k = 0;
+    // three neighbours: two whole members and one of every shape, in each position (a range that exists already may be extended)
+    for pos in 0..3 {
+        let list = [&s0, &s1, &s2][pos];
+        for (o, r) in list.iter() {
+            for kind in 0..3 {
+                k += 1;
+                rep.eval();
+                let whole = Off { begin: Cur::B(0), end: Cur::E(0) };
+                let offs: Vec<Off> = (0..3).map(|i| if i == pos { o.clone() } else { whole.clone() }).collect();
+                let want: Vec<(usize, usize)> = (0..3).map(|i| if i == pos { (parents[i].0 + r.0, parents[i].0 + r.1) } else { parents[i] }).collect();
+                let members: Vec<SelectorBuilder> = (0..3).map(|i| SelectorBuilder::annotationselector(format!("p{}", i), Some(offset(&offs[i])))).collect();
+                let (name, target) = match kind {
+                    0 => ("Directional", SelectorBuilder::DirectionalSelector(members)),
+                    1 => ("Composite", SelectorBuilder::CompositeSelector(members)),
+                    _ => ("Multi", SelectorBuilder::MultiSelector(members)),
+                };
+                let id = format!("t{}", k);
+                let ctx = json!({"text": text, "parents": parents, "offsets": offs.iter().map(|x| x.to_json()).collect::<Vec<_>>(), "selector": name, "path": "complex3"});
+                match guard(|| store.annotate(AnnotationBuilder::new().with_id(id.clone()).with_target(target))) {
+                    Ok(Ok(_)) => {
+                        let a = store.annotation(id.as_str()).expect("annotation");
+                        let got: Vec<(usize, usize)> = a.textselections().map(|t| (t.begin(), t.end())).collect();
+                        rep.distinct(&format!("complex3/{}/pos{}/{}", name, pos, offclass(o)));
+                        if got != want {
+                            rep.violation(format!("C04/text/complex3/{}/wrong-ranges/odd-member-at-{}", name, pos), json!({"got": got, "want": want, "ctx": ctx}));
+                        }
+                    }
+                    Ok(Err(err)) => rep.violation(format!("C04/annotate/complex3/{}/rejects-valid", name), json!({"error": format!("{}", err), "ctx": ctx})),
+                    Err(p) => rep.violation(format!("C04/annotate/complex3/{}/panic/{}", name, p.class()), json!({"panic": p.msg, "ctx": ctx})),
+                }
+            }
+        }
+    }
     for (o0, r0) in &s0 {
         for (o1, r1) in &s1 {
             for kind in 0..3 {
